@@ -256,10 +256,11 @@ def handle (st : St) (j : Json) : D (St × Json) := do
       return (st, ok (Json.mkObj [("parse", Json.str (match e with
         | .syntax => "syntax"
         | .unknownName => "unknownName"
-        | .mixed => "mixed"))]))
+        | .mixed => "mixed")), ("plain", Json.bool (decide (PlainNumbers expr)))]))
     | .ok r =>
       let dead? := hasDeadEnd? sigma (fun a => gen.getD a false) r
-      let base := [("parse", Json.str "ok"), ("dead", match dead? with | some b => Json.bool b | none => Json.str "unknown"),
+      let base := [("parse", Json.str "ok"), ("plain", Json.bool (decide (PlainNumbers expr))),
+        ("dead", match dead? with | some b => Json.bool b | none => Json.str "unknown"),
         ("re", Json.str (reToLean r))]
       match fieldD j "dfa" Json.null with
       | .null => return (st, ok (Json.mkObj base))
